@@ -40,7 +40,7 @@ Clauses(ev, nxt) ==
                            IF r.ok /\ ev.obs.status = "ok" /\ ev.obs.v = r.v THEN {}
                            ELSE IF ~r.ok /\ ev.obs.status # "ok" THEN {}
                            \* input cut inside padding that carries no data: the statement leaves value-or-EOFError open (Codec.tla, "lax")
-                           ELSE IF r.ok /\ "lax" \in r.fl /\ ev.obs.status = "eof" THEN {}
+                           ELSE IF r.ok /\ (("lax" \in r.fl /\ ev.obs.status = "eof") \/ ("laxdecode" \in r.fl /\ ev.obs.status = "decode")) THEN {}
                            ELSE {"parse-pure"}
      [] ev.ev = "Dump" -> LET o == Find(ev.iid) IN
                           IF ~Writable(o.type, o.mode) \/ ~Fits(o.type, o.mode, o.val) THEN {}
